@@ -71,6 +71,8 @@ type readOpts struct {
 	Page      int  `json:"page,omitempty"`
 	PID       int  `json:"pid,omitempty"`
 	IgnoreTCP bool `json:"ignore_tcp,omitempty"`
+	// SSAEntry: 1 = ReadFromSSAWithOptions with the zero options (no callback), 2 = with both callbacks set
+	SSAEntry int `json:"ssa_entry,omitempty"`
 }
 
 func readFormat(format string, r io.Reader, o readOpts) (*astisub.Subtitles, error) {
@@ -80,6 +82,12 @@ func readFormat(format string, r io.Reader, o readOpts) (*astisub.Subtitles, err
 	case "vtt":
 		return astisub.ReadFromWebVTT(r)
 	case "ssa":
+		switch o.SSAEntry {
+		case 1:
+			return astisub.ReadFromSSAWithOptions(r, astisub.SSAOptions{})
+		case 2:
+			return astisub.ReadFromSSAWithOptions(r, astisub.SSAOptions{OnUnknownSectionName: func(string) {}, OnInvalidLine: func(string) {}})
+		}
 		return astisub.ReadFromSSA(r)
 	case "ttml":
 		return astisub.ReadFromTTML(r)
@@ -153,6 +161,9 @@ type c17Case struct {
 	// read through a reader of the other kind (seekable / not). The third-party demultiplexer drops the first two
 	// packets of a stream it cannot rewind; here they hold nothing, so the byte sequence decides alone.
 	CrossCap bool `json:"cross_capability,omitempty"`
+	// ViaOpen (with Seekable): the same bytes in a regular file read through the file-level opener - a file is a
+	// seekable stream delivering what the operating system hands out
+	ViaOpen bool `json:"via_open,omitempty"`
 }
 
 // tsNullPacket is a transport-stream packet of PID 0x1fff (stuffing).
@@ -221,6 +232,30 @@ func checkC17(c c17Case) string {
 		if got := readCanon(c.Format, r, c.Opts); got != ref {
 			return fmt.Sprintf("%s document of %d bytes: the result read from a %s differs from the result read from a plain io.Reader delivering everything at once\n--- plain reader ---\n%s\n--- %s ---\n%s",
 				c.Format, len(c.Doc), name, clip(ref, 700), name, clip(got, 700))
+		}
+	}
+	if c.ViaOpen && c.Seekable {
+		if dir, err := os.MkdirTemp("", "c17open"); err == nil {
+			ext := map[string]string{"ssa": []string{"ssa", "ass"}[len(c.Doc)%2]}[c.Format]
+			if ext == "" {
+				ext = c.Format
+			}
+			p := filepath.Join(dir, "in."+ext)
+			var got string
+			if os.WriteFile(p, c.Doc, 0o644) == nil {
+				got = func() (out string) {
+					defer func() {
+						if rec := recover(); rec != nil {
+							out = "PANIC"
+						}
+					}()
+					return canonResult(astisub.Open(astisub.Options{Filename: p, STL: astisub.STLOptions{IgnoreTimecodeStartOfProgramme: c.Opts.IgnoreTCP}, Teletext: astisub.TeletextOptions{Page: c.Opts.Page, PID: c.Opts.PID}}))
+				}()
+			}
+			os.RemoveAll(dir)
+			if got != "" && got != ref {
+				return fmt.Sprintf("%s document of %d bytes: the result of Open on a regular file holding these bytes differs from the result read from a seekable reader over them (options %+v)\n--- reader ---\n%s\n--- Open ---\n%s", c.Format, len(c.Doc), c.Opts, clip(ref, 700), clip(got, 700))
+			}
 		}
 	}
 	if c.CrossCap && c.Format == "ts" {
@@ -555,6 +590,10 @@ func TestC17(t *testing.T) {
 			}
 		}
 		c := c17Case{Format: format, Doc: doc, WithEOF: rapid.Bool().Draw(rt, "witheof"), Seekable: format != "ts" || rapid.Bool().Draw(rt, "seekable"), CrossCap: crossCap}
+		c.ViaOpen = rapid.IntRange(0, 2).Draw(rt, "viaopen") == 0
+		if c.ViaOpen && c.Seekable {
+			ev.Label("regular-file-through-open")
+		}
 		if format == "ts" && (rapid.Bool().Draw(rt, "pidopt") || crossCap) {
 			// (finding the PID in the tables takes a second pass, which only a reader that can rewind allows: the
 			// comparison between the two kinds of reader is made with the PID given)
